@@ -1,12 +1,17 @@
 //! C17 - random(n) stays in range, draws once per evaluation, and resetRandom replays.
+//!
+//! As built (DESIGN 8.4b): self-consistent oracle on the crate's own event log (feature
+//! verif-hooks), no reference interpreter.
 
 use crate::choice::Ch;
 use crate::device::*;
 use crate::engine::*;
 use crate::gen::*;
+use crate::model::*;
+use crate::probe::*;
 use crate::props::common::*;
 use crate::real::*;
-use crate::ri;
+use crate::ri::DrawEv;
 
 pub struct C17;
 
@@ -19,58 +24,105 @@ pub fn random_cfg() -> Cfg {
     c.max_depth = 3;
     c.allow_c = true;
     c.expr.random = true;
-    c.expr.lazy_hazards = false;
+    // random(LAZY_SENTINEL) in unselected ite branches
+    c.expr.lazy_hazards = true;
     c.expr.radix = false;
-    // whether a variable beats an output and which call's value is seen is C04's business
-    c.vars_like_signals = false;
     c
 }
 
-/// replace every random(e) by the literal 1 (control experiment)
-fn strip_random(b: &mut [crate::model::Stmt]) {
-    use crate::model::*;
-    fn ex(e: &mut Expr) {
-        match e {
-            Expr::Random(_) => *e = Expr::lit(1),
-            Expr::Lit(..) | Expr::Var(_) => {}
-            Expr::Un(_, a) | Expr::Group(a) => ex(a),
-            Expr::Bin(_, a, b) | Expr::SignExt(a, b) => {
-                ex(a);
-                ex(b)
-            }
-            Expr::Ite(a, b, c) => {
-                ex(a);
-                ex(b);
-                ex(c)
+/// bound of the probe `(random(B))` of row r / of the bits probe / of the planted virtual signal
+fn probe_bound(row: usize) -> u64 {
+    1_000_003 + 2 * row as u64
+}
+fn bits_bound(row: usize) -> u64 {
+    probe_bound(row) + 1
+}
+const VIRTUAL_BOUND: u64 = 999_983;
+
+/// bound of the two rows planted around an unconditional `resetRandom;` at the very top
+const RESET_BOUND: u64 = 500_009;
+
+struct Plan {
+    /// row ids of the two planted rows `(random(RESET_BOUND))` / resetRandom / `(random(RESET_BOUND))`
+    reset_pair: Option<(usize, usize)>,
+    /// rows that carry `(random(B))` in RP0
+    value_probe: Vec<usize>,
+    /// rows that carry `bits(2, random(B+1))` in RB0 RB1
+    bits_probe: Vec<usize>,
+    virtual_probe: bool,
+}
+
+/// Add the probe inputs RP0 (64 bit) and RB0, RB1 (1 bit each) in front of the header; rows
+/// that carry a random probe lose their X / C entries, so that one evaluation is one item.
+fn plant(b: &mut Built, ch: &mut Ch) -> Plan {
+    let mut plan = Plan { reset_pair: None, value_probe: vec![], bits_probe: vec![], virtual_probe: false };
+    for (k, (n, bits)) in [("RP0", 64usize), ("RB0", 1), ("RB1", 1)].iter().enumerate() {
+        b.sigs.insert(k, Sig { name: n.to_string(), bits: *bits, kind: Kind::In(InVal::Val(0)) });
+        b.prog.header.insert(k, n.to_string());
+    }
+    let cols = col_roles(&b.prog.header, &b.sigs);
+    fn go(bl: &mut [Stmt], ch: &mut Ch, plan: &mut Plan, cols: &[Col]) {
+        for s in bl {
+            match s {
+                Stmt::Row(id, es) | Stmt::Repeat(_, id, es) => {
+                    let vp = ch.chance(1, 2);
+                    let bp = ch.chance(1, 3);
+                    if vp || bp {
+                        // one evaluation = one item: no X / C in input columns of this row
+                        let mut col = 3;
+                        for e in es.iter_mut() {
+                            let w = e.width();
+                            let input = cols.get(col).map(|c| c.role != ColRole::ExpectedOnly).unwrap_or(false);
+                            if matches!(e, Entry::C(_)) || (matches!(e, Entry::X(_)) && input) {
+                                *e = Entry::Num(0, Radix::Dec);
+                            }
+                            col += w;
+                        }
+                    }
+                    if bp {
+                        es.insert(0, Entry::Bits(2, Expr::Random(Box::new(Expr::lit(bits_bound(*id))))));
+                        plan.bits_probe.push(*id);
+                    } else {
+                        es.insert(0, Entry::Num(0, Radix::Dec));
+                        es.insert(0, Entry::Num(0, Radix::Dec));
+                    }
+                    if vp {
+                        es.insert(0, Entry::Paren(Expr::Random(Box::new(Expr::lit(probe_bound(*id))))));
+                        plan.value_probe.push(*id);
+                    } else {
+                        es.insert(0, Entry::Num(0, Radix::Dec));
+                    }
+                }
+                Stmt::Loop(_, _, inner) | Stmt::While(_, inner) => go(inner, ch, plan, cols),
+                _ => {}
             }
         }
     }
-    fn entries(es: &mut [Entry]) {
-        for en in es {
-            if let Entry::Paren(e) | Entry::Bits(_, e) = en {
-                ex(e)
+    go(&mut b.prog.stmts, ch, &mut plan, &cols);
+    // In a third of the cases the program starts with: a row showing random(RESET_BOUND),
+    // `resetRandom;`, a second such row. Both are executed unconditionally and the first draw
+    // of the run is the first row's, so the second row must show the same value.
+    if ch.chance(1, 3) {
+        let next_id = b.prog.row_count();
+        let mk = |id: usize| -> Stmt {
+            let mut es: Vec<Entry> = vec![Entry::Paren(Expr::Random(Box::new(Expr::lit(RESET_BOUND)))), Entry::Num(0, Radix::Dec), Entry::Num(0, Radix::Dec)];
+            for c in cols.iter().skip(3) {
+                es.push(if c.role == ColRole::ExpectedOnly { Entry::X(true) } else { Entry::Num(0, Radix::Dec) });
             }
-        }
+            Stmt::Row(id, es)
+        };
+        b.prog.stmts.insert(0, mk(next_id + 1));
+        b.prog.stmts.insert(0, Stmt::ResetRandom);
+        b.prog.stmts.insert(0, mk(next_id));
+        plan.reset_pair = Some((next_id, next_id + 1));
     }
-    for s in b {
-        match s {
-            Stmt::Let(_, e) | Stmt::Declare(_, e) => ex(e),
-            Stmt::Row(_, es) => entries(es),
-            Stmt::Repeat(bound, _, es) => {
-                ex(bound);
-                entries(es)
-            }
-            Stmt::Loop(_, bound, inner) => {
-                ex(bound);
-                strip_random(inner)
-            }
-            Stmt::While(c, inner) => {
-                ex(c);
-                strip_random(inner)
-            }
-            Stmt::ResetRandom => {}
-        }
+    if ch.chance(1, 2) && !b.analysis.virtuals.iter().any(|v| v == "VR") {
+        b.prog.stmts.insert(0, Stmt::Declare("VR".into(), Expr::Random(Box::new(Expr::lit(VIRTUAL_BOUND)))));
+        plan.virtual_probe = true;
     }
+    b.cols = col_roles(&b.prog.header, &b.sigs);
+    b.analysis = analyse(&b.prog);
+    plan
 }
 
 impl Property for C17 {
@@ -78,7 +130,7 @@ impl Property for C17 {
         "C17"
     }
     fn rule(&self) -> &'static str {
-        "profile `random`: flow programs with random(e) in row entries, let, ite conditions and both ite branches, nested in its own argument, in a virtual signal; bounds >= 2 by construction (2, small, (e&7)+2, 2^k up to 2^62); resetRandom at any statement position; seeds {0, 1, u64::MAX, random} forced through the seed hook. Oracle: the crate's own event log (one GenDraw per draw from the run's generator, Draw{bound,value} per random evaluation, Reset) is replayed by the reference interpreter: each random evaluation must find exactly one generator draw whose bound equals the reference value of the argument and whose value satisfies 0 <= value < bound; resetRandom must find a Reset; the run must then match the reference trace row for row (as if the draws were literals); the log must be consumed exactly (none for unselected ite branches); after every Reset the values repeat those drawn from the start of the run over the longest common prefix of the bound sequences; a second run with the same seed gives the same log. Non-trivial: >= 2 draws and (a reset followed by a draw, or a random in an unselected branch, or a draw in a condition/bound); distinct by source + signals + driver + seed."
+        "profile `random`: flow programs with random(e) in row entries, let, bounds, ite conditions and branches, nested in its own argument, in a virtual signal; bounds >= 2 by construction (2, small, (e&7)+2, 2^k up to 2^62); resetRandom at any statement position; seeds {0, 1, u64::MAX, random} forced through the seed hook; planted probes: `(random(B_r))` in a 64-bit input and `bits(2, random(B_r+1))` in two 1-bit inputs with a bound unique to the source row r (such rows have no X/C, so one evaluation is one item), `declare VR = random(999983)`, and random(7919) in unselected branches of constant-condition ite. Oracle (self-consistent, on the crate's own event log): every random evaluation is exactly one generator draw (GenDraw, Draw pairs), 0 <= value < bound; after every Reset the values repeat those drawn from the start of the run over the longest common prefix of the bound sequences; the same seed gives the same log; no draw with bound 7919 (lazy ite); for each probed row the number of draws with its bound equals the number of its items, and each item shows exactly the drawn value (resp. its two low bits): one draw per evaluation, used as if it were a literal; VR is drawn once per checked row and shows the drawn value; and a straight-line control program that performs the same sequence of random(bound) / resetRandom with the same seed draws exactly the same values (the draws are those of the run's generator, in order). Non-trivial: >= 2 draws and (a reset followed by a draw, or a checked probe, or a lazy sentinel present); distinct by source + signals + driver + seed."
     }
     fn cases(&self, tier: Tier) -> u64 {
         match tier {
@@ -87,24 +139,17 @@ impl Property for C17 {
         }
     }
     fn required_classes(&self) -> Vec<&'static str> {
-        vec!["draws>=2", "reset-then-draw", "bound=2", "bound>=2^32", "random-in-virtual", "seed=0", "seed=max", "replayed-prefix>=2"]
+        vec!["draws>=2", "reset-then-draw", "bound=2", "bound>=2^32", "virtual-probe-checked", "seed=0", "seed=max", "replayed-prefix>=2", "value-probe-checked", "bits-probe-checked", "lazy-sentinel-planted", "probe-in-loop", "control-program-compared", "planted-reset-checked"]
     }
     fn run(&self, s: &Streams) -> CaseOut {
         let mut out = CaseOut::new();
         let mut built = gen_case(&mut Ch::new(&s[0]), &random_cfg());
-        // operator binding is C08's business: every operand is parenthesised
         parenthesise_program(&mut built.prog.stmts);
-        let mut dch = Ch::new(&s[2]);
-        if feats(&built).randoms == 0 {
-            // construction, not rejection: give the program a draw at the very front
-            let bound = *dch.choose(&[2u64, 3, 10, 1 << 40]);
-            built.prog.stmts.insert(
-                0,
-                crate::model::Stmt::Let("s".into(), crate::model::Expr::Random(Box::new(crate::model::Expr::lit(bound)))),
-            );
-            built.analysis = crate::model::analyse(&built.prog);
-        }
+        let mut lch = Ch::new(&s[1]);
+        let plan = plant(&mut built, &mut lch);
+        let rows = instrument(&mut built, &mut lch, 0, ProbePref::Vars, &[]);
         let text = built_text(&built);
+        let mut dch = Ch::new(&s[2]);
         let spec = gen_spec(
             &mut dch,
             &built.sigs,
@@ -116,130 +161,89 @@ impl Property for C17 {
             2 => u64::MAX,
             _ => dch.u64(),
         };
-        let spec = DriverSpec { constant: true, ..spec };
         render_case(&mut out, &text, &built.sigs, Some(&spec));
         out.put("seed", format!("{seed}"));
         let f = feats(&built);
         feat_classes(&mut out, &f);
         out.class_if(seed == 0, "seed=0");
         out.class_if(seed == u64::MAX, "seed=max");
-        if f.randoms == 0 {
-            out.discard("no-random");
-            return out;
-        }
-        out.class_if(built.prog.virtuals().iter().any(|(_, e)| e.uses_random()), "random-in-virtual");
+        let mut lazy = false;
+        built.prog.visit_exprs(&mut |e| {
+            if matches!(e, Expr::Random(b) if matches!(**b, Expr::Lit(LAZY_SENTINEL, _))) {
+                lazy = true
+            }
+        });
+        out.class_if(lazy, "lazy-sentinel-planted");
         let Some(tc) = load_wellformed(&mut out, "c17", &text, &built.sigs) else {
             return out;
         };
-        // one call more than the reference's row cap, so that a program of exactly 300 rows is seen to end
-        let opts = RunOpts { max_next: 301, seed: Some(seed), ..Default::default() };
+        let opts = RunOpts { max_next: 300, seed: Some(seed), ..Default::default() };
         let real = run_real(&tc, &built.sigs, &spec, &opts);
+        if let Some(RealItem::Panic(p)) = real.ctor.as_ref().or(real.items.last()) {
+            out.fail(p.key(), format!("the run panicked: {p}"));
+            return out;
+        }
         if real.new_runs != 1 {
             out.fail("c17:generators", format!("one run created {} generators", real.new_runs));
             return out;
         }
-        let mut t = ri::run(
-            &built.prog,
-            &built.sigs,
-            &spec,
-            &ri::RiOpts { draws: Some(real.draws.clone()), row_cap: 300, ..Default::default() },
-        );
-        fact_classes(&mut out, &t);
-        // Control experiment: the same program with every random(e) replaced by the literal 1.
-        // If the crate disagrees with the reference even there, whatever differs in the real
-        // run is not caused by random, and reference-dependent findings are not reported.
-        let control_ok = |out: &mut CaseOut| -> bool {
-            let mut p2 = built.prog.clone();
-            strip_random(&mut p2.stmts);
-            let text2 = crate::print::canonical(&p2).text;
-            let t2 = ri::run(&p2, &built.sigs, &spec, &ri::RiOpts { row_cap: 300, ..Default::default() });
-            let ok = match load(&text2, &built.sigs) {
-                Ok(tc2) => {
-                    let real2 = run_real(&tc2, &built.sigs, &spec, &RunOpts { max_next: 301, seed: Some(seed), ..Default::default() });
-                    trace_diff(&t2, &real2, Projection::ALL).is_none()
+        // --- the log alone
+        let log = &real.draws;
+        let mut segments: Vec<Vec<(i64, i64)>> = vec![vec![]];
+        let mut k = 0;
+        while k < log.len() {
+            match &log[k] {
+                DrawEv::Reset => {
+                    segments.push(vec![]);
+                    k += 1;
                 }
-                Err(_) => false,
-            };
-            if !ok {
-                out.class("divergence-not-caused-by-random");
-            }
-            ok
-        };
-        // what the replay found
-        if let Some(ri::RiItem::Hazard { hazard, .. }) = t.items.last() {
-            match hazard {
-                ri::Hazard::DrawMismatch(m) => {
-                    if !control_ok(&mut out) {
-                        return out;
-                    }
-                    out.fail("c17:draw-mismatch", format!("{m}\n log: {:?}", &real.draws[..real.draws.len().min(40)]));
-                    return out;
-                }
-                ri::Hazard::DrawLogExhausted => {
-                    // the crate drew less often than the program evaluates random - unless the
-                    // real run was stopped by the harness (cap on next() calls), in which case
-                    // the log simply ends where the run was cut
-                    if real.ended || real.items.len() < t.items.len() - 1 || real.items.len() < opts.max_next {
-                        if !control_ok(&mut out) {
+                DrawEv::GenDraw => match log.get(k + 1) {
+                    Some(DrawEv::Draw { bound, value }) => {
+                        if *bound >= 2 && !(0 <= *value && value < bound) {
+                            out.fail("c17:out-of-range", format!("random({bound}) returned {value}"));
                             return out;
                         }
+                        segments.last_mut().unwrap().push((*bound, *value));
+                        k += 2;
+                    }
+                    other => {
                         out.fail(
-                            "c17:missing-draw",
-                            format!("a random evaluation (or resetRandom) found no event in the crate's log; log: {:?}", &real.draws[..real.draws.len().min(40)]),
+                            "c17:draws-per-evaluation",
+                            format!("event {k}: a draw from the run's generator is followed by {other:?}, not by the result of one random evaluation (more than one draw per evaluation?); log: {:?}", &log[k.saturating_sub(2)..(k + 4).min(log.len())]),
                         );
                         return out;
                     }
-                    t.items.pop();
-                    t.end = ri::RiEnd::RowCap;
-                }
-                _ => {
-                    out.discard("other-hazard");
+                },
+                DrawEv::Draw { bound, value } => {
+                    out.fail(
+                        "c17:draws-per-evaluation",
+                        format!("event {k}: random({bound}) = {value} without a draw from the run's generator right before it (a generator other than the run's?)"),
+                    );
                     return out;
                 }
             }
         }
-        if let Some((k, m)) = trace_diff(&t, &real, Projection::ALL) {
-            // "behaves exactly as if the drawn values had been written as literals": a row that
-            // differs from the reference is this property's only if random is what makes it
-            // differ. Control experiment: the same program with every random(e) replaced by
-            // the literal 1. If the crate also disagrees with the reference there, the
-            // divergence has nothing to do with random (some other property's business).
-            if !k.starts_with("panic:") && !control_ok(&mut out) {
-                return out;
-            }
-            let key = if k.starts_with("panic:") { k } else { format!("c17:{k}") };
-            out.fail(key, format!("{m}\n(the same program with every random(e) replaced by 1 agrees with the reference)"));
-            return out;
-        }
-        // the log must be consumed exactly when both runs went to the end
-        if matches!(t.end, ri::RiEnd::Finished) && real.ended && t.draws_left != 0 {
-            if !control_ok(&mut out) {
-                return out;
-            }
-            out.fail(
-                "c17:extra-draws",
-                format!(
-                    "{} events of the crate's random log were not accounted for by any evaluation of random / resetRandom (draws in unselected branches? more than one draw per evaluation?)",
-                    t.draws_left
-                ),
-            );
+        let all: Vec<(i64, i64)> = segments.iter().flatten().copied().collect();
+        // lazy ite
+        if all.iter().any(|(b, _)| *b == LAZY_SENTINEL as i64) {
+            out.fail("c17:ite-not-lazy", format!("a draw with bound {LAZY_SENTINEL} happened; random({LAZY_SENTINEL}) only occurs in unselected branches of ite"));
             return out;
         }
         // resetRandom replays
         let mut replayed = 0;
-        for (si, seg) in t.draw_segments.iter().enumerate().skip(1) {
-            for (k, ((b0, v0), (b, v))) in t.draw_segments[0].iter().zip(seg).enumerate() {
+        for (si, seg) in segments.iter().enumerate().skip(1) {
+            for (j, ((b0, v0), (b, v))) in segments[0].iter().zip(seg).enumerate() {
                 if b0 != b {
                     break;
                 }
                 if v0 != v {
                     out.fail(
                         "c17:reset-does-not-replay",
-                        format!("after reset #{si}, draw {k} with bound {b} gave {v}, the run's draw {k} from the start (same bounds so far) gave {v0}"),
+                        format!("after reset #{si}, draw {j} with bound {b} gave {v}, the run's draw {j} from the start (same bounds so far) gave {v0}"),
                     );
                     return out;
                 }
-                replayed = replayed.max(k + 1);
+                replayed = replayed.max(j + 1);
             }
         }
         // same seed, same log
@@ -248,13 +252,140 @@ impl Property for C17 {
             out.fail("c17:same-seed-different-draws", "two runs with the same seed and script produced different random logs");
             return out;
         }
-        let all: Vec<&(i64, i64)> = t.draw_segments.iter().flatten().collect();
+        // --- planted probes
+        let tag_of = |r: &RealRow| match r.inputs.iter().find(|e| e.0 == "TAG").map(|e| e.1) {
+            Some(InVal::Val(t)) => Some((t - 1) as usize),
+            _ => None,
+        };
+        let get = |r: &RealRow, n: &str| match r.inputs.iter().find(|e| e.0 == n).map(|e| e.1) {
+            Some(InVal::Val(v)) => Some(v),
+            _ => None,
+        };
+        let row_items: Vec<&RealRow> = real.items.iter().filter_map(|i| if let RealItem::Row(r) = i { Some(r) } else { None }).collect();
+        let clean = real.items.iter().all(|i| matches!(i, RealItem::Row(_)));
+        if let Some((r1, r2)) = plan.reset_pair {
+            let first = |rid: usize| row_items.iter().find(|r| tag_of(r) == Some(rid)).and_then(|r| get(r, "RP0"));
+            if let (Some(a), Some(b)) = (first(r1), first(r2)) {
+                out.class("planted-reset-checked");
+                if a != b {
+                    out.fail(
+                        "c17:reset-does-not-restart",
+                        format!("the program starts with a row showing random({RESET_BOUND}) = {a}, then `resetRandom;`, then a second such row, which shows {b}: after the restart the generator must repeat the run's first draw"),
+                    );
+                    return out;
+                }
+            }
+        }
+        if clean {
+            for rid in &plan.value_probe {
+                let shown: Vec<i64> = row_items.iter().filter(|r| tag_of(r) == Some(*rid)).filter_map(|r| get(r, "RP0")).collect();
+                let drawn: Vec<i64> = all.iter().filter(|(b, _)| *b == probe_bound(*rid) as i64).map(|(_, v)| *v).collect();
+                if !shown.is_empty() {
+                    out.class("value-probe-checked");
+                    out.class_if(rows.get(rid).map(|i| i.depth > 0).unwrap_or(false), "probe-in-loop");
+                }
+                if shown != drawn {
+                    out.fail(
+                        "c17:probe-value-or-count",
+                        format!(
+                            "source row #{rid} holds (random({})): its {} items show {:?}, the run's generator was drawn {} times for that bound: {:?} (exactly one draw per evaluation, and the drawn value is what the row must show)",
+                            probe_bound(*rid),
+                            shown.len(),
+                            shown,
+                            drawn.len(),
+                            drawn
+                        ),
+                    );
+                    return out;
+                }
+            }
+            for rid in &plan.bits_probe {
+                let shown: Vec<(i64, i64)> = row_items
+                    .iter()
+                    .filter(|r| tag_of(r) == Some(*rid))
+                    .filter_map(|r| Some((get(r, "RB0")?, get(r, "RB1")?)))
+                    .collect();
+                let drawn: Vec<(i64, i64)> = all.iter().filter(|(b, _)| *b == bits_bound(*rid) as i64).map(|(_, v)| ((v >> 1) & 1, v & 1)).collect();
+                if !shown.is_empty() {
+                    out.class("bits-probe-checked");
+                }
+                if shown != drawn {
+                    out.fail(
+                        "c17:bits-probe-value-or-count",
+                        format!(
+                            "source row #{rid} holds bits(2, random({})): its items show the bit pairs {:?}, the draws for that bound give {:?} (one draw per evaluation of the entry, both bits from the same draw)",
+                            bits_bound(*rid),
+                            shown,
+                            drawn
+                        ),
+                    );
+                    return out;
+                }
+            }
+            if plan.virtual_probe {
+                let shown: Vec<OutVal> = row_items
+                    .iter()
+                    .filter(|r| !r.outputs.is_empty())
+                    .filter_map(|r| r.outputs.iter().find(|o| o.name == "VR").map(|o| o.output))
+                    .collect();
+                let drawn: Vec<OutVal> = all.iter().filter(|(b, _)| *b == VIRTUAL_BOUND as i64).map(|(_, v)| OutVal::Val(*v)).collect();
+                if !shown.is_empty() {
+                    out.class("virtual-probe-checked");
+                }
+                if shown != drawn {
+                    out.fail(
+                        "c17:virtual-probe-value-or-count",
+                        format!("declare VR = random({VIRTUAL_BOUND}): the {} checked rows show {:?}, the draws for that bound are {:?}", shown.len(), shown, drawn),
+                    );
+                    return out;
+                }
+            }
+        }
+        // --- control program: the same sequence of random(bound) / resetRandom, straight-line
+        if !all.is_empty() && log.len() <= 4000 {
+            let mut stmts = vec![];
+            for ev in log {
+                match ev {
+                    DrawEv::Draw { bound, .. } if *bound >= 2 => stmts.push(Stmt::Let("t".into(), Expr::Random(Box::new(Expr::lit(*bound as u64))))),
+                    DrawEv::Reset => stmts.push(Stmt::ResetRandom),
+                    _ => {}
+                }
+            }
+            stmts.push(Stmt::Row(0, vec![Entry::Num(0, Radix::Dec)]));
+            let csigs = vec![Sig { name: "A".into(), bits: 1, kind: Kind::In(InVal::Val(0)) }];
+            let cprog = Program { header: vec!["A".into()], stmts };
+            let ctext = crate::print::canonical(&cprog).text;
+            if let Ok(ctc) = load(&ctext, &csigs) {
+                let cspec = DriverSpec::honest(&csigs, 1, Palette::Small);
+                let control = run_real(&ctc, &csigs, &cspec, &RunOpts { max_next: 3, seed: Some(seed), ..Default::default() });
+                let cvals: Vec<(i64, i64)> = control
+                    .draws
+                    .iter()
+                    .filter_map(|e| if let DrawEv::Draw { bound, value } = e { Some((*bound, *value)) } else { None })
+                    .collect();
+                let mvals: Vec<(i64, i64)> = all.iter().filter(|(b, _)| *b >= 2).copied().collect();
+                out.class("control-program-compared");
+                if cvals != mvals {
+                    let j = cvals.iter().zip(&mvals).position(|(a, b)| a != b).unwrap_or(cvals.len().min(mvals.len()));
+                    out.fail(
+                        "c17:not-the-runs-generator-in-order",
+                        format!(
+                            "a straight-line program that performs the same sequence of random(bound) / resetRandom with the same seed draws different values: draw {j}: run {:?}, control {:?} (bound, value)",
+                            mvals.get(j),
+                            cvals.get(j)
+                        ),
+                    );
+                    return out;
+                }
+            }
+        }
+        let reset_then_draw = segments.iter().skip(1).any(|s| !s.is_empty());
         out.class_if(all.len() >= 2, "draws>=2");
-        out.class_if(t.facts.reset_then_draw, "reset-then-draw");
+        out.class_if(reset_then_draw, "reset-then-draw");
         out.class_if(all.iter().any(|(b, _)| *b == 2), "bound=2");
         out.class_if(all.iter().any(|(b, _)| *b >= 1 << 32), "bound>=2^32");
         out.class_if(replayed >= 2, "replayed-prefix>=2");
-        out.nontrivial = all.len() >= 2 && (t.facts.reset_then_draw || f.randoms as usize > all.len() || f.computed_bound || f.whiles > 0);
+        out.nontrivial = all.len() >= 2 && (reset_then_draw || !plan.value_probe.is_empty() || !plan.bits_probe.is_empty() || lazy);
         out
     }
 }
